@@ -63,7 +63,8 @@ def historyHandler : Handler
         k := k + 1
     let scripts := steps.map (·.models)
     let region := Scope.c04 g scripts
-    some ((judge "C04" region converge).and (judge "C04" (region.map (· ++ "/replay")) (replay g steps)))
+    let regionConv := Scope.c04 g scripts (conv := true)
+    some ((judge "C04" regionConv converge).and (judge "C04" (region.map (· ++ "/replay")) (replay g steps)))
   | _ => none
 
 end Sqlize.Driver
